@@ -205,12 +205,23 @@ def gcc_stream(chk, cli, ncases):
                     "gamma.c": unit(3), "delta.c": unit(4), "eps.c": unit(5), "include/absinc.h": hdr},
           "units": ["main.c", "alpha.c", "beta.c", "gamma.c", "delta.c", "eps.c"], "runs": ["3", "1"], "pair_line": False,
           "abs_include": True, "abs_units": ["gamma.c"]}
-    progs = [(-1, w, False), (-2, d1, True), (-3, d2, False), (-4, d3, False), (-5, d4, True), (-6, d5, True)] + progs
+    # files that own executable lines but in which no function starts: a fragment of statements included inside a function body,
+    # an X-macro table expanded inside a function; plus a header that only contributes a statement macro
+    d6 = {"files": {"frag.inc": "    r += a * 3;\n    if (r > 10)\n        r -= 2;\n",
+                    "ops.def": "OP(1, 2)\nOP(2, 5)\nOP(3, 7)\n",
+                    "mac.h": "#ifndef M_H\n#define M_H\n#define BUMP(r, a) do { \\\n    if ((a) > 1) \\\n        (r) += 2; \\\n    else \\\n        (r) += 1; \\\n} while (0)\n#endif\n",
+                    "m0.c": '#include <stdlib.h>\n#include "mac.h"\nunsigned f(unsigned a)\n{\n    unsigned r = a;\n#include "frag.inc"\n    switch (a) {\n'
+                            '#define OP(k, v) case k: \\\n        r += v; \\\n        break;\n#include "ops.def"\n#undef OP\n    default:\n        r = 0;\n    }\n'
+                            '    BUMP(r, a);\n    return r;\n}\nint main(int argc, char **argv)\n{\n    return f(argc > 1 ? atoi(argv[1]) : 0) > 1000;\n}\n',
+                    "other.c": unit(1)},
+          "units": ["m0.c", "other.c"], "runs": ["2", "7"], "pair_line": False}
+    progs = [(-1, w, False), (-2, d1, True), (-3, d2, False), (-4, d3, False), (-5, d4, True), (-6, d5, True), (-7, d6, True)] + progs
     with concurrent.futures.ThreadPoolExecutor(max_workers=8) as ex:
-        outs = list(ex.map(lambda t: gcc_case(cli, sc, t[0] + 6, t[1], t[2]), progs))
+        outs = list(ex.map(lambda t: gcc_case(cli, sc, t[0] + 7, t[1], t[2]), progs))
     known = {e["key"]: e for e in vlib.known_findings(chk.pid) if e.get("status") == "known"}
     dist = {"programs": len(progs), "runs_0": 0, "runs_1": 0, "runs_2plus": 0, "units_multi": 0, "with_header": 0, "with_subdir": 0,
-            "pair_line": 0, "branch": 0, "units_total": 0, "programs_with_dotted_unit_name": 0, "programs_with_stale_units": 0, "programs_with_absolute_include_dir": 0, "units_compiled_by_absolute_path": 0, "absolute_source_files_compared": 0, "stale_units": 0, "failed_items_in_model_runs": 0, "thread_counts": list(THREADS), "lines_compared": 0, "functions_compared": 0, "known_class_lines": 0,
+            "pair_line": 0, "branch": 0, "units_total": 0, "programs_with_dotted_unit_name": 0, "programs_with_stale_units": 0, "programs_with_included_fragment": 0, "programs_with_xmacro_table": 0, "programs_with_statement_macro_header": 0,
+            "files_with_lines_but_no_function_compared": 0, "programs_with_absolute_include_dir": 0, "units_compiled_by_absolute_path": 0, "absolute_source_files_compared": 0, "stale_units": 0, "failed_items_in_model_runs": 0, "thread_counts": list(THREADS), "lines_compared": 0, "functions_compared": 0, "known_class_lines": 0,
             "latch_multiple": 0, "latch_single": 0}
     exprs, ecases = [], []
     pending_known = []
@@ -224,6 +235,10 @@ def gcc_stream(chk, cli, ncases):
         dist["units_multi"] += len(prog["units"]) > 1
         dist["units_total"] += len(prog["units"])
         dist["programs_with_stale_units"] += bool(prog.get("stale"))
+        sh_ = prog.get("shapes", {})
+        dist["programs_with_included_fragment"] += bool(sh_.get("fragment")) or "frag.inc" in prog["files"]
+        dist["programs_with_xmacro_table"] += bool(sh_.get("xmacro")) or "ops.def" in prog["files"]
+        dist["programs_with_statement_macro_header"] += bool(sh_.get("stmtmacro")) or "mac.h" in prog["files"]
         dist["programs_with_absolute_include_dir"] += bool(prog.get("abs_include"))
         dist["units_compiled_by_absolute_path"] += len(prog.get("abs_units", []))
         dist["stale_units"] += len(prog.get("stale", []))
@@ -259,6 +274,7 @@ def gcc_stream(chk, cli, ncases):
         in_class = []
         for s in sorted(set(acc) & set(rep)):
             dist["absolute_source_files_compared"] += s.startswith("/")
+            dist["files_with_lines_but_no_function_compared"] += not acc[s]["funcs"]
             multi = set(o["json"][s]["multi"])
             got = dict((l, c) for l, c in rep[s]["lines"])
             for l in sorted(set(got) | set(acc[s]["lines"])):
@@ -615,7 +631,7 @@ def run(chk):
     chk.extra["toolchain"] = {"gcov": v, "gcc": sh(["gcc", "--version"], "/").stdout.decode().split("\n")[0]}
     chk.cov["rule"] = ("(GCC) seeded C programs (1-3 translation units, optional sub-directory unit, header with static inline functions, straight-line / "
                        "if-else / for / while / switch / nested / ternary bodies, optional two functions on one line), gcc --coverage -O0, 0-3 runs; "
-                       "gcov -b -c text account (cross-checked with gcov --json-format) vs grcov -t lcov [--branch] --threads 1,2,3,4,8; several translation units per program, some with an extra dot in the file name, a header with executable code in an include directory given as an absolute -I path and units compiled through their absolute path (sources matched by the name gcov itself reports), some stale (recompiled after the run: gcov fails on them and they must contribute nothing); glue model fed with "
+                       "gcov -b -c text account (cross-checked with gcov --json-format) vs grcov -t lcov [--branch] --threads 1,2,3,4,8; several translation units per program, some with an extra dot in the file name, a header with executable code in an include directory given as an absolute -I path and units compiled through their absolute path (sources matched by the name gcov itself reports), files that own executable lines but no function (statement fragment #included inside a body, X-macro .def table expanded inside a function, header contributing only a statement macro), some stale (recompiled after the run: gcov fails on them and they must contribute nothing); glue model fed with "
                        "what `gcov <gcno> -i` leaves in a worker directory.  (LLVM) recording llvm-profdata/llvm-cov stand-ins under --llvm-path; "
                        "layouts over directories, zips, plain arguments (same relative names in several archives, names differing only by '/' vs '_', _1 suffixes, unique bytes per profile and sha1 of every merge input logged by the stand-in, noise files, both profile kinds); "
                        "binary trees with ELF files with/without exec bit, distinct executables sharing a file name in different directories, scripts, text, empty and 1-byte files, failing and unparsable exports, dot-directories, "
